@@ -1,5 +1,5 @@
 """C18 — the command line honours its contract for every argument vector."""
-from harness import cli
+from harness import cli, initstr
 
 ID = "C18"
 MODULES = ["HeraProofs.Props.C18"]
@@ -25,6 +25,11 @@ def run(ctx):
     r = cli.check(seed, 100000 if thorough else 2000)
     r["distinct_nontrivial"] = r["distinct"]
     r["streams"] = {"cli": r["evaluations"]}
+    # --init strings of every shape: an exception out of parse_init_string is a traceback on the command line
+    ini = initstr.run(seed + 7, 20000 if thorough else 3000)
+    r["violations"] += [v for v in ini.get("violations", []) if v.get("property") == "C18"]
+    r["evaluations"] += ini.get("evaluations", 0)
+    r["streams"]["initstr"] = ini.get("evaluations", 0)
     r["rule"] = ("argument vectors: half random mixtures of sub-commands, every flag, every value syntax of --throttle / --init (well- and "
                  "ill-formed), unknown flags, `--`, 0-2 paths; half compatible invocations per mode; paths = valid, invalid, empty, "
                  "missing, directory, non-ASCII, unwritable output; distinct = distinct vectors")
@@ -33,4 +38,11 @@ def run(ctx):
 
 
 def replay(obj):
+    if obj.get("stream") == "initstr":
+        import hera.main as M
+        try:
+            M.parse_init_string(obj["case"]["init"])
+        except Exception as e:  # noqa
+            return "parse_init_string raised " + type(e).__name__
+        return None
     return cli.replay_case(obj["case"])
